@@ -619,6 +619,83 @@ func R08(group string) Rule {
 						c.Check(ok, "R08", "ReadRows/limit-tested-before-row-is-added", ci.Instr.Pos(), "a row is only added on an edge where rows_limit is unset or not yet reached", "a row can be added without rows_limit having been tested in this callback invocation: the callback runs anew for every range of the row set, so each later range emits a row beyond the limit")
 					}
 				}
+				// the counter rows_limit is compared with only ever grows during the scan: it is not reset by the
+				// flush that hands a batch to the stream (a counter kept inside the chunk builder and zeroed with
+				// it makes the limit count rows per batch instead of rows per request)
+				for _, f := range scope {
+					for _, b := range f.Blocks {
+						ifi, ok := b.Instrs[len(b.Instrs)-1].(*ssa.If)
+						if !ok {
+							continue
+						}
+						bin, ok := ifi.Cond.(*ssa.BinOp)
+						if !ok {
+							continue
+						}
+						var cnt ssa.Value
+						isOrd := bin.Op == token.GEQ || bin.Op == token.LSS || bin.Op == token.GTR || bin.Op == token.LEQ
+						switch {
+						case isOrd && isLimit(bin.Y) && !isLimit(bin.X):
+							cnt = bin.X
+						case isOrd && isLimit(bin.X) && !isLimit(bin.Y):
+							cnt = bin.Y
+						}
+						if cnt == nil {
+							continue
+						}
+						if _, isK := core.Resolve(cnt).(*ssa.Const); isK {
+							continue
+						}
+						loc := loadedLocation(cnt)
+						if loc == "" {
+							continue
+						}
+						var bad ssa.Instruction
+						for _, st := range storesToLocation(P, core.PkgBttest, loc) {
+							// an increment (computed from the location's own value) or the initialisation in ReadRows itself
+							selfDep := false
+							if bo, isBin := core.Resolve(st.Val).(*ssa.BinOp); isBin && (loadedLocation(bo.X) == loc || loadedLocation(bo.Y) == loc) {
+								selfDep = true
+							}
+							if !selfDep && st.Parent() != fn {
+								bad = st
+							}
+						}
+						// … nor wiped together with the struct it lives in
+						if strings.HasPrefix(loc, "field:") {
+							tname := strings.TrimPrefix(loc, "field:") // "pkg.Type.field"
+							tname = tname[:strings.LastIndexByte(tname, '.')]
+							if i := strings.IndexByte(tname, '.'); i >= 0 {
+								tname = tname[i+1:]
+							}
+							for _, sf := range P.SrcFuncs(core.PkgBttest) {
+								if sf == fn {
+									continue
+								}
+								for _, sb := range sf.Blocks {
+									for _, in := range sb.Instrs {
+										st, isSt := in.(*ssa.Store)
+										if !isSt {
+											continue
+										}
+										if pt, isP := st.Addr.Type().Underlying().(*types.Pointer); isP {
+											if nn := core.NamedOf(pt.Elem()); nn != nil && core.TName(nn) == tname {
+												if _, isStruct := pt.Elem().Underlying().(*types.Struct); isStruct {
+													bad = st
+												}
+											}
+										}
+									}
+								}
+							}
+						}
+						if bad != nil {
+							c.Bad("R08", "ReadRows/limit-counter-survives-the-flush", bad.Pos(), "the counter that rows_limit is compared with is overwritten here (outside ReadRows' own initialisation, and not by an increment): after a batch is flushed the count starts again and the scan returns more rows than the limit")
+						} else {
+							c.Ok("R08", "ReadRows/limit-counter-survives-the-flush", ifi.Pos(), true, "the limit counter is only initialised in ReadRows and incremented")
+						}
+					}
+				}
 				// validateRowRanges: every failure is InvalidArgument
 				v := P.MustFunc(core.PkgBttest, "validateRowRanges")
 				okAll, k := true, 0
